@@ -104,13 +104,15 @@ func ParseNegotiate(b []byte) (*Negotiate, []string) {
 
 type Authenticate struct {
 	LM, NT, Domain, User, Workstation, SessionKey Field
-	Flags                                           uint32
-	Version                                         []byte
-	MIC                                             []byte
+	Flags                                         uint32
+	Version                                       []byte
+	MIC                                           []byte
 }
 
-// ParseAuthenticate reads an AUTHENTICATE_MESSAGE (MS-NLMP 2.2.1.3) in its
-// current layout: 64 bytes of descriptors and flags, 8 bytes version, 16 bytes MIC.
+// ParseAuthenticate reads an AUTHENTICATE_MESSAGE (MS-NLMP 2.2.1.3): 64 bytes of
+// descriptors and flags, then optionally 8 bytes of version and, after them,
+// optionally 16 bytes of MIC. The fixed part is thus 64, 72 or 88 bytes long; which
+// of the three forms a message uses is read off where its payload begins (see below).
 func ParseAuthenticate(b []byte) (*Authenticate, []string) {
 	if len(b) < 64 {
 		return nil, []string{fmt.Sprintf("message of %d bytes shorter than the 64-byte fixed part", len(b))}
@@ -130,15 +132,27 @@ func ParseAuthenticate(b []byte) (*Authenticate, []string) {
 	a.Workstation = readField(b, 44, "WorkstationFields")
 	a.SessionKey = readField(b, 52, "EncryptedRandomSessionKeyFields")
 	a.Flags = binary.LittleEndian.Uint32(b[60:])
+	fields := []*Field{&a.LM, &a.NT, &a.Domain, &a.User, &a.Workstation, &a.SessionKey}
+	// the payload may only start after version and MIC when they are present; the
+	// smallest offset of a non-empty payload field tells which header form was used
+	// (a message without any payload is as long as its header)
+	first := uint64(len(b))
+	for _, f := range fields {
+		if f.Len > 0 && uint64(f.Offset) < first {
+			first = uint64(f.Offset)
+		}
+	}
 	header := 64
-	if len(b) >= 88 {
-		// the payload may only start after version and MIC when they are present;
-		// the smallest payload offset tells which header form was used
+	switch {
+	case first >= 88:
 		header = 88
 		a.Version = b[64:72]
 		a.MIC = b[72:88]
+	case first >= 72:
+		header = 72
+		a.Version = b[64:72]
 	}
-	problems = append(problems, validate(b, header, []*Field{&a.LM, &a.NT, &a.Domain, &a.User, &a.Workstation, &a.SessionKey})...)
+	problems = append(problems, validate(b, header, fields)...)
 	return a, problems
 }
 
